@@ -239,11 +239,11 @@ Proof.
   - cbn. auto.
 Qed.
 
-Lemma setid_field st s t bytes :
-  Inv s -> st_wf st -> r_wire (send_set cur st s t) = Some bytes ->
+Lemma setid_field_m st s t bytes :
+  InvM s -> st_wf st -> r_wire (send_set cur st s t) = Some bytes ->
   hfield (firstn 20 bytes) 16 2 = hdr_id s.
 Proof.
-  intros HI W Hw. destruct (wire_is_frame st s t bytes HI W Hw) as (-> & _ & _).
+  intros HI W Hw. destruct (wire_is_frame_m st s t bytes HI W Hw) as (-> & _ & _).
   rewrite hfield_head by lia. unfold frame.
   pose proof (field_at (msg_hdr (x_obs st) (seq_next (x_seq st) s) t (20 + blen (body_of s)))
                 (hdr_id s) 2 (be 2 (4 + blen (body_of s)) ++ body_of s)) as H.
@@ -252,6 +252,11 @@ Proof.
   rewrite L16 in H. rewrite <- !app_assoc in *. rewrite H.
   apply N.mod_small. apply hdr_id_lt.
 Qed.
+
+Lemma setid_field st s t bytes :
+  Inv s -> st_wf st -> r_wire (send_set cur st s t) = Some bytes ->
+  hfield (firstn 20 bytes) 16 2 = hdr_id s.
+Proof. intros H. apply setid_field_m. now apply Inv_InvM. Qed.
 
 Lemma wf_record_octets els : wf_record els = true -> exists cs, octets_of els = Some cs.
 Proof.
